@@ -92,8 +92,8 @@ LawsCall(o) == LET cd == CurDesc(o)  cm == CurMap(o) IN
                \A kw \in TestKws(o.sem) : LET ckw == RenKw(o, kw) IN
                   /\ \A out \in AllOutputs(o.sem) :
                         LET v == Eval(o.sem, kw, out) IN
-                        /\ Eval(cd, ckw, cm[out]) = RenTerm(v, cm)              \* LawRenameCall
-                        /\ EvalObs(o, cm[out], ckw, "call") = RenTerm(v, o.heads) \* LawObsCall
+                        /\ (SpellingsDistinct(o) => Eval(cd, ckw, cm[out]) = RenTerm(v, cm))   \* LawRenameCall
+                        /\ (out \in o.outs => EvalObs(o, cm[out], ckw, "call") = RenTerm(v, o.heads)) \* LawObsCall
                   /\ LawSplit(o, kw)
 LawsMap(o)  == ValidMapRequest(o.sem, MapInp(o.sem)) => (LawRenameMap(o, MapInp(o.sem)) /\ LawDenoteE(o.sem, MapInp(o.sem)))
 LawsAxis(o) == \A p \in FreeRoots(o.sem) : AddAxisWellFormed(o, p, "k") =>
